@@ -73,6 +73,76 @@ func TestCombinators(t *testing.T) {
 		h := kit.TinyInt().Draw(rt, "h")
 		return fmt.Sprintf("Concat(%d,%s)", h, d), func() fp.Iterator[int] { return iterator.Concat(h, mkSrc(kind, xs)) }, append([]int{h}, xs...)
 	})
+	// an iterator that has been read part of the way is still an iterator: what a combinator applied to it then
+	// delivers is the rest, followed by whatever the combinator adds
+	scriptCheck(t, "Iterator.Concat/after-partial-read", "2-4 parts of len 0..3 chained with Concat/Appended; j elements read (HasNext probed 0-2 times before each Next and once more after the last); then one of Concat(tail), Appended(x), tail.Concat(it), Map(+100), Filter(odd), Take(n) is applied to the partly read iterator; reference = the unread rest, combined accordingly", true, kit.Opt{}, func(rt *rapid.T) (string, func() fp.Iterator[int], []int) {
+		parts := rapid.SliceOfN(rapid.SliceOfN(kit.TinyInt(), 0, 3), 2, 4).Draw(rt, "parts")
+		kind := rapid.IntRange(0, nSrcKinds-1).Draw(rt, "srckind")
+		appendLast := rapid.Bool().Draw(rt, "lastViaAppended")
+		all := []int{}
+		for _, p := range parts {
+			all = append(all, p...)
+		}
+		j := rapid.IntRange(0, len(all)).Draw(rt, "read")
+		probes := rapid.SliceOfN(rapid.IntRange(0, 2), j+1, j+1).Draw(rt, "probes")
+		op := rapid.IntRange(0, 5).Draw(rt, "then")
+		tail := rapid.SliceOfN(kit.TinyInt(), 0, 3).Draw(rt, "tail")
+		x := kit.TinyInt().Draw(rt, "x")
+		n := rapid.IntRange(0, 4).Draw(rt, "n")
+		rest := append([]int{}, all[j:]...)
+		var ref []int
+		switch op {
+		case 0:
+			ref = append(rest, tail...)
+		case 1:
+			ref = append(rest, x)
+		case 2:
+			ref = append(append([]int{}, tail...), rest...)
+		case 3:
+			ref = refMap(rest, func(v int) int { return v + 100 })
+		case 4:
+			ref = refFilter(rest, func(v int) bool { return v%2 != 0 })
+		default:
+			ref = rest
+			if n < len(ref) {
+				ref = ref[:n]
+			}
+		}
+		desc := fmt.Sprintf("concat(%v as %s, lastViaAppended=%v) read %d probes %v then op%d tail=%v x=%d n=%d", parts, srcKindName(kind), appendLast, j, probes, op, tail, x, n)
+		return desc, func() fp.Iterator[int] {
+			it := mkSrc(kind, parts[0])
+			for i, p := range parts[1:] {
+				if appendLast && i == len(parts)-2 && len(p) == 1 {
+					it = it.Appended(p[0])
+				} else {
+					it = it.Concat(mkSrc(kind, p))
+				}
+			}
+			for i := 0; i < j; i++ {
+				for k := 0; k < probes[i]; k++ {
+					it.HasNext()
+				}
+				it.Next()
+			}
+			for k := 0; k < probes[j]; k++ {
+				it.HasNext()
+			}
+			switch op {
+			case 0:
+				return it.Concat(mkSrc(kind, tail))
+			case 1:
+				return it.Appended(x)
+			case 2:
+				return mkSrc(kind, tail).Concat(it)
+			case 3:
+				return it.Map(func(v int) int { return v + 100 })
+			case 4:
+				return it.Filter(func(v int) bool { return v%2 != 0 })
+			default:
+				return it.Take(n)
+			}
+		}, ref
+	})
 	scriptCheck(t, "iterator.Zip", "two sequences of independent length 0..6", true, kit.Opt{}, func(rt *rapid.T) (string, func() fp.Iterator[t2], []t2) {
 		a, ka, da := srcDraw(rt, 6)
 		b := genXs(6).Draw(rt, "ys")
